@@ -919,6 +919,56 @@ def _run(ctx):
     bad = common.coq_mismatches(PROP, HEADER, kernel_terms) if kernel_terms else []
     for i in bad:
         ctx.disagree("savgol: kernel-evaluated model differs from the extracted model", sg_desc[i])
+    # ---- scales: the filter reproduces polynomials for ANY sample spacing, and rescaling the abscissae leaves the
+    # output unchanged.  Tolerances: the unchanged code was measured at <= 6e-14 (order <= 3) and <= 1.2e-9
+    # (orders 4, 5) over these scales; bounds 1e-9 / 1e-7 keep a margin of >= 80x.
+    SCALES = [("spacing 1", 1.0, 0.0), ("sample indices > 2^31", 1.0, 2.0 ** 31 + 12345), ("60 Hz seconds", 1 / 60, 1250.0),
+              ("2.5 kHz seconds", 1 / 2500, 310.0), ("30 kHz seconds", 1 / 30000, 4000.0), ("microseconds", 1e-6, 10.0)]
+    worst_scale, worst_meta = {}, 0.0
+    for k in range(240 if T else 72):
+        name, dt, t0 = SCALES[k % len(SCALES)]
+        window = rng.choice([5, 7, 9, 11, 13, 31])
+        order = [1, 2, 3, 2, 3, 4, 5, 2][(k // len(SCALES)) % 8]
+        order = min(order, window - 1)
+        tol = 1e-9 if order <= 3 else 1e-7
+        n = window + rng.randrange(2, 30)
+        gaps = np.array([rng.uniform(0.3, 1.7) * rng.choice([1, 1, 1, 2, 3]) for _ in range(n)])
+        xs_ = t0 + np.cumsum(gaps) * dt
+        u = (xs_ - xs_.mean()) / (xs_.max() - xs_.min())
+        count("savgol_scale_cases")
+        for deg in range(order + 1):
+            cf = [rng.uniform(0.5, 2) * rng.choice([-1, 1]) for _ in range(deg + 1)]
+            yv = np.polynomial.polynomial.polyval(u, np.array(cf))
+            desc = {"fn": "non_uniform_savgol", "scale": name, "window": window, "polynom": order, "degree": deg,
+                    "x": [float(v) for v in xs_], "y": [float(v) for v in yv]}
+            out = savgol_call(window, order, xs_, yv)
+            if isinstance(out, tuple):
+                ctx.fail("non_uniform_savgol raised on a valid input (%s)" % (out[1],), desc, {"kind": "savgol_exception"})
+                continue
+            err = float(np.max(np.abs(out - yv)) / np.max(np.abs(yv))) if np.all(np.isfinite(out)) else float("inf")
+            worst_scale[name] = max(worst_scale.get(name, 0.0), err)
+            if err > tol:
+                ctx.fail("non_uniform_savgol does not reproduce a polynomial of degree %d <= order %d on abscissae with "
+                         "%s (rel err %.3g, bound %g)" % (deg, order, name, err, tol), desc,
+                         {"kind": "savgol_polynomial_scale"})
+        # metamorphic: x -> c x leaves the output unchanged (arbitrary data)
+        yr = np.array([rng.uniform(-1, 1) for _ in range(n)])
+        x1 = np.cumsum(gaps)
+        ref = savgol_call(window, order, x1, yr)
+        for cfac in (1e-4, 1e-2, 1e3):
+            o = savgol_call(window, order, x1 * cfac, yr)
+            desc = {"fn": "non_uniform_savgol", "metamorphic": "x -> %g x" % cfac, "window": window, "polynom": order,
+                    "x": [float(v) for v in x1], "y": [float(v) for v in yr], "factor": cfac}
+            if isinstance(ref, tuple) or isinstance(o, tuple):
+                ctx.fail("non_uniform_savgol raised on a valid input", desc, {"kind": "savgol_exception"})
+                continue
+            e = float(np.max(np.abs(o - ref)) / (1 + np.max(np.abs(ref)))) if np.all(np.isfinite(o)) else float("inf")
+            worst_meta = max(worst_meta, e)
+            if e > tol:
+                ctx.fail("non_uniform_savgol: rescaling the abscissae by %g changes the output (rel diff %.3g, bound %g)"
+                         % (cfac, e, tol), desc, {"kind": "savgol_scale_invariance"})
+    meas["savgol_polynomial_by_scale_max_rel_err"] = {k_: float("%.3g" % v) for k_, v in worst_scale.items()}
+    meas["savgol_rescaling_max_rel_diff"] = worst_meta
     # NaN gaps: smooth_interpolate_savgol returns finite values everywhere
     for k in range(48 if T else 16):
         n = rng.randrange(40, 120)
@@ -1157,6 +1207,20 @@ def replay(ctx, data):
             bad.append("length/constant fails")
         if obs != model:
             bad.append("model differs")
+    elif fn == "non_uniform_savgol" and ("scale" in inp or "metamorphic" in inp):
+        x_, y_ = np.array(inp["x"]), np.array(inp["y"])
+        out = savgol_call(inp["window"], inp["polynom"], x_ * inp.get("factor", 1.0), y_)
+        if "scale" in inp:
+            err = float(np.max(np.abs(out - y_)) / np.max(np.abs(y_))) if not isinstance(out, tuple) else float("inf")
+            print("implementation: polynomial of degree %d, order %d, %s: rel err %.3g" % (inp["degree"], inp["polynom"], inp["scale"], err))
+            if err > (1e-9 if inp["polynom"] <= 3 else 1e-7):
+                bad.append("polynomial not reproduced")
+        else:
+            ref = savgol_call(inp["window"], inp["polynom"], x_, y_)
+            e = float(np.max(np.abs(out - ref)) / (1 + np.max(np.abs(ref))))
+            print("implementation: output changes by %.3g (relative) under x -> %g x" % (e, inp["factor"]))
+            if e > (1e-9 if inp["polynom"] <= 3 else 1e-7):
+                bad.append("not scale invariant")
     elif fn == "non_uniform_savgol":
         out = savgol_call(inp["window"], inp["polynom"], inp["x"], inp["y"])
         model = common.Extracted(PROP).run_many([[5, inp["window"], inp["polynom"], len(inp["x"])] + inp["x"] + inp["y"]])[0]
